@@ -706,6 +706,37 @@ def run(tier, seed):
                 stats["steps"] += int(res.split("n=")[1])
             else:
                 v.violation(component="intern", input="intern " + case, what="distinct constants are confused: " + res, impl=res)
+    # directed search for residue of failed / abandoned operations leaking into later values: histories that mix
+    # constants with conversions failing midway; everything is read back after every step (harness/src/bin/residue.rs)
+    okR, outR = vplib.cargo_build("debug", bins=["residue"])
+    if not okR:
+        v.tie_failure("harness build failed (residue): " + outR[-400:])
+    else:
+        rngr = vplib.rng_for(seed, PID + "/residue")
+        nres = 400 if tier == "thorough" else 60
+        lines = []
+        for k in range(nres):
+            sd = rngr.randrange(1 << 40)
+            lines.append("S %d %d" % (sd, 40 + (k % 5) * 20))
+            lines.append("B %d %d" % (sd, 40 + (k % 5) * 20))
+        rc, outl = vplib.run_lines([vplib.private_copy(vplib.harness_bin("residue"))], "\n".join(lines) + "\n", timeout=900)
+        rs = {"cases": len(lines), "failed_conversions": 0, "attempted_conversions": 0, "steps": 0}
+        if rc != 0 or len(outl) != len(lines):
+            v.tie_failure("residue run rc=%s lines=%d/%d" % (rc, len(outl), len(lines)))
+        nbad = 0
+        for ln in outl:
+            case, _, res = ln.partition("\t")
+            if res.startswith("ok"):
+                m = re.search(r"steps=(\d+) failed_conversions=(\d+)/(\d+)", res)
+                if m:
+                    rs["steps"] += int(m.group(1)); rs["failed_conversions"] += int(m.group(2)); rs["attempted_conversions"] += int(m.group(3))
+            else:
+                nbad += 1
+                if nbad <= 5:
+                    v.violation(component="residue", input="residue " + case,
+                                what="a value added through the data interface does not read back as added (after a failed conversion): " + res, impl=res)
+        stats["residue"] = rs
+        stats["steps"] += rs["steps"]
     viol.sort(key=lambda x: x[0])
     for n, case, probs, body in viol[:20]:
         v.violation(component="store", input=case, what=probs[0], all_problems=probs[:6], impl=body[:1500])
@@ -732,12 +763,26 @@ def replay(obj):
     if not cases:
         print("replay names a broken tie, not an input:", obj.get("no_longer_checks"))
         return run("quick", obj.get("seed", 0))
+    bad = 0
+    special = [c for c in cases if c.startswith(("residue ", "intern "))]
+    cases = [c for c in cases if not c.startswith(("residue ", "intern "))]
+    for c in special:
+        name, _, line = c.partition(" ")
+        okb, _ = vplib.cargo_build("debug", bins=[name])
+        rc, outl = vplib.run_lines([vplib.harness_bin(name)], line + "\n", timeout=900) if okb else (1, [])
+        res = outl[0].partition("\t")[2] if outl else "no output"
+        if res.startswith("ok"):
+            print("ok: %s" % c)
+        else:
+            bad = 1
+            print("FAILS: %s\n   %s" % (c, res))
+    if not cases:
+        return bad
     ok, out = vplib.cargo_build("debug", bins=[STORE])
     if not ok:
         print("harness build failed")
         return 1
     rc, impl = vplib.run_lines([store_exe()], "\n".join(cases) + "\n", timeout=600)
-    bad = 0
     for line in impl:
         case, results, dumps, oracle_col = split_out(line)
         stream = "mixed" if " | " in case else "exh"
